@@ -2,6 +2,7 @@ SPECIFICATION Spec
 CONSTANTS
   MaxCount = 48
   HashPeriods = 2
+  FviExcl = FALSE
   SwapDirs = FALSE
-INVARIANTS ArithOK ReportedOK InRange ClientIsS HashConsistent MapOK Unique
+INVARIANTS ArithOK ReportedOK FviOK InRange ClientIsS HashConsistent MapOK Unique
 CHECK_DEADLOCK FALSE
